@@ -8,7 +8,6 @@ use crate::common::*;
 use crate::exact::Rat;
 use crate::fail;
 use crate::gen::*;
-use crate::oracle::*;
 use crate::splinegen::*;
 use ndarray::IxDyn;
 
@@ -42,7 +41,7 @@ impl Check for C02 {
     }
     fn assumptions(&self) -> Vec<String> {
         let mut v = spline_assumptions();
-        v.push("the exact spline enters only through the magnitude sigma (scale of the allowance), not through the verdict".into());
+        v.push("the scale sigma of the allowance is taken from the implementation's own samples (max |value| + 4 h max |secant slope|); no exact spline and no boundary knowledge enter".into());
         v
     }
     fn required_classes(&self, _t: Tier) -> Vec<&'static str> {
@@ -108,15 +107,27 @@ fn run<T: Flt>(src: &mut Src, obs: &mut Obs) -> Result<(), Fail> {
     let k = k_const::<T>();
     for l in 0..lanes {
         let yl = c.lane_data(l);
-        let bounds = c.bc.bounds(l);
-        let sp = match Spline::solve(&c.x, &yl, &bounds) {
-            Ok(s) => s,
-            Err(e) => fail!("oracle-bug", "exact spline failed: {e}"),
-        };
         let val = |j: usize| res[j * lanes + l].f();
+        // Scale of the allowance, taken from the implementation's own curve (not from the exact
+        // spline: a wrong boundary condition changes the curve but not the facts checked here):
+        // sigma_i = max |sample| + 4 h_i max |secant slope between adjacent samples|
+        let vmax = (0..qs.len()).map(|j| val(j).abs()).fold(yl.iter().fold(0f64, |a, v| a.max(v.abs())), f64::max);
+        let mut smax = 0f64;
+        for &(_, s, len) in &first {
+            for j in s..s + len - 1 {
+                let d = (val(j + 1) - val(j)).abs() / (qs[j + 1] - qs[j]);
+                if d.is_finite() {
+                    smax = smax.max(d);
+                }
+            }
+        }
+        if !vmax.is_finite() {
+            fail!("non-finite-value", "T={} lane {l}: the spline returned a non-finite value for finite data; x={:?} y={:?} bc={:?}", T::NAME, c.x, yl, c.bc.describe());
+        }
+        let sigma = |i: usize| vmax + 4.0 * (c.x[i + 1] - c.x[i]) * smax;
         // (a) knots
         for &(i, s, len) in &first {
-            let tol = k * T::U * sp.sigma(i) * 1.25;
+            let tol = k * T::U * sigma(i) * 1.25;
             for (j, knot) in [(s, i), (s + len - 1, i + 1)] {
                 let (ok, ne) = within(val(j), &Rat::from_f64(yl[knot]), tol);
                 obs.asserts += 1;
@@ -133,7 +144,7 @@ fn run<T: Flt>(src: &mut Src, obs: &mut Obs) -> Result<(), Fail> {
                 obs.count("intervals_with_fewer_than_5_distinct_samples", 1);
                 continue;
             }
-            let tol_v = k * T::U * sp.sigma(i) * 1.25;
+            let tol_v = k * T::U * sigma(i) * 1.25;
             let idx = [s, s + 1, s + 3, s + 4];
             let q4: Vec<Rat> = idx.iter().map(|&j| Rat::from_f64(qs[j])).collect();
             let v4: Vec<Rat> = idx.iter().map(|&j| Rat::from_f64(val(j))).collect();
@@ -163,8 +174,8 @@ fn run<T: Flt>(src: &mut Src, obs: &mut Obs) -> Result<(), Fail> {
             let qr: Vec<Rat> = ir.iter().map(|&j| Rat::from_f64(qs[j])).collect();
             let vl: Vec<Rat> = il.iter().map(|&j| Rat::from_f64(val(j))).collect();
             let vr: Vec<Rat> = ir.iter().map(|&j| Rat::from_f64(val(j))).collect();
-            let tl = k * T::U * sp.sigma(i) * 1.25;
-            let tr = k * T::U * sp.sigma(i + 1) * 1.25;
+            let tl = k * T::U * sigma(i) * 1.25;
+            let tr = k * T::U * sigma(i + 1) * 1.25;
             for ord in [1usize, 2] {
                 let wl = deriv_weights(&ql, &knot, ord);
                 let wr = deriv_weights(&qr, &knot, ord);
